@@ -57,7 +57,7 @@ def make_config(prop, rng, tier):
             "p_connected": rng.choice([0.6, 0.8, 1.0, 0.3]),
             "walkers": rng.randint(1, 3),
             "class_cap": rng.choice([200, 800, 3000]),
-            "p_interrupt": rng.choice([0.0, 0.0, 0.1]),
+            "p_interrupt": rng.choice([0.0, 0.1, 0.3]),
             "p_abandon": rng.choice([0.0, 0.1, 0.3]),
             "members_per_check": rng.choice([8, 20, 60]),
         })
@@ -796,6 +796,11 @@ class Driver:
         return max(1, int(scale ** r.random()))
 
     def next_op(self, world):
+        op = self._next_op(world)
+        self.last_op = op
+        return op
+
+    def _next_op(self, world):
         sched, gen, fault = self.s["sched"], self.s["gen"], self.s["fault"]
         cfg = self.cfg
         if not self.started:
@@ -815,6 +820,16 @@ class Driver:
                     self.pending.append({"op": "fork", "src": "v0", "dst": self.fresh_slot()})
         if self.pending:
             return self.pending.pop(0)
+        fired = world.counters.get("F5_fired", 0)
+        if fired != getattr(self, "last_f5", 0):
+            # an operation has just been interrupted: the same request is made again at once (what
+            # the interrupted call left behind must not change its answer), then work goes on
+            self.last_f5 = fired
+            last = getattr(self, "last_op", None)
+            if last and last.get("op") in ("normal_form", "interchange"):
+                again = {k: v for k, v in last.items() if k != "interrupt_at"}
+                self.last_op = again
+                return again
         names = sorted(world.slots)
         if not names:
             return None
